@@ -483,7 +483,7 @@ void dataset_t::check(tensor_size_t feature) const
 
 void dataset_t::check(indices_cmap_t samples) const
 {
-    critical(samples.min() < 0 || samples.max() > m_datasource.samples(),
+    critical(samples.min() < 0 || samples.max() >= m_datasource.samples(),
              "dataset: invalid sample range, expecting in [0, ", m_datasource.samples(), "), got ", "[", samples.min(),
              ", ", samples.max(), ")!");
 }
